@@ -5,6 +5,9 @@ import (
 	"sort"
 	"strings"
 
+	"github.com/atlassian/gostatsd"
+	"github.com/atlassian/gostatsd/verifhooks"
+
 	"verifharness/hlib"
 )
 
@@ -155,4 +158,76 @@ func traceTerm(in input, labels []string, plog [][]int, wlog [][]wev, ticks int)
 	}
 	return hlib.App("STrace", hlib.Nat(in.Parsers), hlib.Nat(in.Queue), hlib.Z(in.Exp[0]), hlib.Z(in.Exp[1]), hlib.Z(in.Exp[2]), hlib.Z(in.Exp[3]),
 		hlib.List(labels), hlib.List(pl), hlib.List(wl), hlib.Nat(ticks))
+}
+
+// logAnomalies cross-checks the logs before a trace is built from them: the parsers' dispatched
+// batches against what the workers received.  Which shards a batch has splits for is worked out
+// from the lines with the implementation's Bucket (monitor only; Coq's totals / trace comparison
+// use the model's own bucket).
+func logAnomalies(in input, plog [][]int, wlog [][]wev) (out []string) {
+	ll := verifhooks.NewLineLexer(4)
+	want := map[[2]int]bool{} // (shard, batch) that must be received
+	dispatched := map[int]int{}
+	for _, l := range plog {
+		for _, b := range l {
+			dispatched[b]++
+		}
+	}
+	for b, n := range dispatched {
+		if b < 0 || b >= len(in.Batches) {
+			out = append(out, fmt.Sprintf("a parser dispatched a map of unknown batch %d", b))
+		} else if n > 1 {
+			out = append(out, fmt.Sprintf("batch %d was dispatched %d times", b, n))
+		}
+	}
+	for b, batch := range in.Batches {
+		if dispatched[b] == 0 {
+			continue
+		}
+		for _, d := range batch {
+			for _, line := range linesOf(d.Msg) {
+				m, _, err := ll.LexLine([]byte(line), "")
+				if err != nil || m == nil {
+					continue
+				}
+				m.Source = gostatsd.Source(d.IP)
+				want[[2]int{gostatsd.Bucket(m.Name, m.FormatTagsKey(), in.Shards), b}] = true
+				m.Done()
+			}
+		}
+	}
+	got := map[[2]int]int{}
+	for i, l := range wlog {
+		for _, e := range l {
+			if e.Kind != 'M' {
+				continue
+			}
+			if e.Batch < 0 || e.Batch >= len(in.Batches) {
+				out = append(out, fmt.Sprintf("worker %d received a map that belongs to no batch (an empty or foreign map)", i))
+				continue
+			}
+			got[[2]int{i, e.Batch}]++
+		}
+	}
+	var keys [][2]int
+	for k := range got {
+		keys = append(keys, k)
+	}
+	for k := range want {
+		if got[k] == 0 {
+			keys = append(keys, k)
+		}
+	}
+	sort.Slice(keys, func(a, b int) bool { return keys[a][1] < keys[b][1] || keys[a][1] == keys[b][1] && keys[a][0] < keys[b][0] })
+	for _, k := range keys {
+		switch {
+		case got[k] > 1:
+			out = append(out, fmt.Sprintf("worker %d received the split of batch %d %d times", k[0], k[1], got[k]))
+		case got[k] == 1 && !want[k]:
+			out = append(out, fmt.Sprintf("worker %d received a split of batch %d, which has no series for that shard", k[0], k[1]))
+		case got[k] == 0:
+			out = append(out, fmt.Sprintf("the split of batch %d for shard %d was dispatched but never received", k[1], k[0]))
+		}
+	}
+	return out
 }
